@@ -11,8 +11,8 @@ def run(ctx, replay_ops=None):
                         "Go's division-by-zero panic is not modelled by the translator; the guarded divisions of OMul/muldiv/Mul2div are proved unreachable-at-zero only through the exactness theorems"]
     ok_gen, _ = ctx.go2lean(["Basics"])
     proved = ok_gen and ctx.prove(["AlgoVerif.Props.C45"])
-    drivers = [("drv", ["c45"], "spec")]
-    okb, out = ctx.lean_build(["drv"])
+    drivers = [("c45", [], "spec")]
+    okb, out = ctx.lean_build(["c45"])
     if not okb:
         raise RuntimeError("spec driver does not build: " + out[-800:])
     if ok_gen:
